@@ -531,6 +531,9 @@ static void cmdNum(const Msg& q, Msg& r) {
         else if (op == "round") out += d2bits(DoubleSupport::round(bits2d(item)));
         else if (op == "floor") out += d2bits(DoubleSupport::floor(bits2d(item)));
         else if (op == "ceil") out += d2bits(DoubleSupport::ceiling(bits2d(item)));
+        else if (op == "s2i") { char b[40]; snprintf(b, sizeof b, "%d", WideStringToInt(xs(unhex(item)).c_str())); out += b; }
+        else if (op == "s2l") { char b[40]; snprintf(b, sizeof b, "%ld", WideStringToLong(xs(unhex(item)).c_str())); out += b; }
+        else if (op == "s2ul") { char b[40]; snprintf(b, sizeof b, "%lu", WideStringToUnsignedLong(xs(unhex(item)).c_str())); out += b; }
         else { r["error"] = "bad op"; return; }
         out += '\n';
     }
